@@ -1734,7 +1734,7 @@ class Model_from_InPulse(Model):
         }
 
         data = io.StringIO(data)
-        data = pd.read_csv(data)
+        data = pd.read_csv(data, float_precision="round_trip")
         self.parameters_names = [col for col in data.columns if ":" not in col]
         parameters_values = data[self.parameters_names].values
         self.functions_columns = {}
